@@ -33,6 +33,12 @@ pub proof fn lemma_divmod(r: int, i: int, j: int)
   assert((j + 1) * r == j * r + r) by (nonlinear_arith);
 }
 
+// column j of the block that starts at column c0 (horizontal layout), row i of the block that starts at row r0 of a
+// matrix with `rr` rows (vertical layout)
+pub proof fn lemma_cm_shift_col(r: int, c0: int, i: int, j: int)
+  ensures cm(r, i, c0 + j) == c0 * r + cm(r, i, j),
+{ assert((c0 + j) * r == c0 * r + j * r) by (nonlinear_arith); }
+
 // cm is injective on the index rectangle
 pub proof fn lemma_cm_inj(r: int, i1: int, j1: int, i2: int, j2: int)
   requires 0 <= i1 < r, 0 <= i2 < r, 0 <= j1, 0 <= j2, cm(r, i1, j1) == cm(r, i2, j2),
@@ -203,3 +209,47 @@ pub uninterp spec fn opf_div(a: u64, b: u64) -> u64;
 #[verifier::external_body] pub fn wsub(a: u64, b: u64) -> (o: Option<u64>) ensures o == Some(opf_sub(a, b)) { unimplemented!() }
 #[verifier::external_body] pub fn wmul(a: u64, b: u64) -> (o: Option<u64>) ensures o == Some(opf_mul(a, b)) { unimplemented!() }
 #[verifier::external_body] pub fn wdiv(a: u64, b: u64) -> (o: Option<u64>) ensures o == Some(opf_div(a, b)) { unimplemented!() }
+
+// position, in the column-major destination with `rr` rows, of the k-th element (column-major) of a block with `r` rows
+// whose top-left element is at linear position `off`
+pub open spec fn rm_pos(off: int, r: int, rr: int, k: int) -> int { off + (k / r) * rr + (k % r) }
+
+pub proof fn lemma_rm_step(off: int, r: int, rr: int, k: int)
+  requires r >= 1, k >= 0,
+  ensures (k + 1) % r == 0 ==> rm_pos(off, r, rr, k + 1) == rm_pos(off, r, rr, k) + (rr - r) + 1,
+          (k + 1) % r != 0 ==> rm_pos(off, r, rr, k + 1) == rm_pos(off, r, rr, k) + 1,
+{
+  let q = k / r; let m = k % r;
+  vstd::arithmetic::div_mod::lemma_fundamental_div_mod(k, r);
+  vstd::arithmetic::div_mod::lemma_mod_pos_bound(k, r);
+  assert(k == r * q + m);
+  assert(r * q == q * r) by (nonlinear_arith);
+  if m + 1 < r {
+    vstd::arithmetic::div_mod::lemma_fundamental_div_mod_converse(k + 1, r, q, m + 1);
+  } else {
+    assert((q + 1) * r == q * r + r) by (nonlinear_arith);
+    vstd::arithmetic::div_mod::lemma_fundamental_div_mod_converse(k + 1, r, q + 1, 0);
+    assert((q + 1) * rr == q * rr + rr) by (nonlinear_arith);
+  }
+}
+
+pub proof fn lemma_rm_bound(off: int, r: int, c: int, rr: int, k: int)
+  requires r >= 1, rr >= r, 0 <= k < r * c,
+  ensures off <= rm_pos(off, r, rr, k) <= off + (c - 1) * rr + (r - 1), 0 <= k / r < c, 0 <= k % r < r,
+{
+  let q = k / r; let m = k % r;
+  vstd::arithmetic::div_mod::lemma_fundamental_div_mod(k, r);
+  vstd::arithmetic::div_mod::lemma_mod_pos_bound(k, r);
+  assert(r * q == q * r) by (nonlinear_arith);
+  assert(q >= 0) by (nonlinear_arith) requires k == q * r + m, 0 <= m < r, k >= 0, r >= 1;
+  assert(q < c) by (nonlinear_arith) requires k == q * r + m, 0 <= m < r, k < r * c, r >= 1;
+  assert(q * rr <= (c - 1) * rr) by (nonlinear_arith) requires q <= c - 1, rr >= 0;
+  assert(q * rr >= 0) by (nonlinear_arith) requires q >= 0, rr >= 0;
+}
+
+pub proof fn lemma_rm_at(off: int, r: int, rr: int, i: int, j: int)
+  requires 0 <= i < r, 0 <= j,
+  ensures rm_pos(off, r, rr, j * r + i) == off + j * rr + i,
+{
+  vstd::arithmetic::div_mod::lemma_fundamental_div_mod_converse(j * r + i, r, j, i);
+}
